@@ -234,6 +234,20 @@ def print_assumptions(prop, names):
     return chunks, out
 
 
+def coqchk(prop, timeout=1500):
+    """Re-check the property's compiled theorem file and everything it depends on with the independent checker;
+    returns (ok, summary text)."""
+    try:
+        p = subprocess.run(["coqchk", "-silent", "-o", "-Q", COQ, "CP", "CP.Props.%s" % prop], stdout=subprocess.PIPE,
+                           stderr=subprocess.STDOUT, text=True, timeout=timeout)
+    except subprocess.TimeoutExpired:
+        return False, "coqchk timed out"
+    out = p.stdout
+    i = out.find("CONTEXT SUMMARY")
+    summary = " ".join(out[i:].split()) if i >= 0 else out[-800:]
+    return p.returncode == 0 and "Axioms: <none>" in summary, summary
+
+
 # ---------------------------------------------------------------- evidence / findings
 
 
